@@ -1807,6 +1807,14 @@ def processor_tree(gofile: GoFile, type_name: str) -> dict:
     bp = _bp_alias(gofile)
     body = fn.body
     if len(body) == 1 and body[0][0] == "return" and len(body[0][1]) == 1:
+        qc0 = _qualified_call(body[0][1][0])
+        if qc0 and qc0[0] == bp and qc0[1] == "NewMessageProcessor" and len(qc0[2]) == 3:
+            # a message without fields written in one statement: `nil` or an empty literal for the field list is the same tree
+            third = qc0[2][2]
+            empty = (third[0] == "ident" and third[1] == "nil") or (third[0] == "complit" and not third[2])
+            ext, nbits = _bool_lit(qc0[2][0]), _const_int(qc0[2][1])
+            if empty and ext is not None and nbits is not None:
+                return {"kind": "message", "extensible": ext, "nbits": nbits, "fields": []}
         return _processor_expr(body[0][1][0], bp)
     # message form
     if (len(body) == 2 and body[0][0] == "assign" and body[0][1] == ":="
